@@ -13,7 +13,7 @@ mod ops;
 use std::io::{BufRead, Write};
 
 fn main() {
-    std::panic::set_hook(Box::new(|_| {}));
+    ops::install_panic_hook(std::env::var("HARNESS_PANIC_MSG").is_ok());
     let args: Vec<String> = std::env::args().collect();
     if args.len() < 2 {
         eprintln!("usage: harness gen <suite> <tier> <seed> | eval");
